@@ -11,11 +11,11 @@ theorem shapes_getD (pool : List CU) (c : Nat) (hc : c < pool.length) :
   simp [List.getD_eq_getElem?_getD, hc]
 
 /-- **no tick is stuck**: reachable-state invariants, at least one dispatcher, both ports have room,
-    every completion delivered, the head message names an in-flight request, every queued or
-    dispatching kernel fits — then a tick without progress and without fault means that every launch
+    every completion delivered, the head message names an in-flight request, every dispatching
+    kernel fits (a queued launch with an idle dispatcher is taken — progress — or rejected — fault) — then a tick without progress and without fault means that every launch
     has been answered -/
 theorem no_stuck_fits_core {S} (b : Bool) (caps : List (List Nat)) (cp : CP) (hdc : DCI cp) (hti : TI S cp)
-    (hinv : CPInv b caps cp) (hkq : KQ (KernFits caps S) cp.view) (hn : 0 < cp.disps.length)
+    (hinv : CPInv b caps cp) (hkq : KD (KernFits caps S) cp.view) (hn : 0 < cp.disps.length)
     (hb : (cpTick cp).2 = false) (hf : (cpTick cp).1.fault = none) (henv : EnvReady cp) :
     AllAnswered cp := by
   obtain ⟨hcr, hdr, hdel, hhead⟩ := henv
@@ -130,7 +130,7 @@ theorem no_stuck_fits_core {S} (b : Bool) (caps : List (List Nat)) (cp : CP) (hd
           have hv : ci.view = cp.view := cq.same.1
           have : (cp.view.ds i).kern = some k := by
             rw [← hv]; exact hk
-          exact hkq.2 i k this
+          exact hkq i k this
         have hnf : (algNext ci i).1.fault = none := by
           rcases dispTick_false_post ci i cdc c3 c4 ccr cdrv with ⟨hor, _⟩ | ⟨_, _, _, e⟩
           · rcases hor with h' | h'
@@ -156,8 +156,13 @@ theorem no_stuck_fits_core {S} (b : Bool) (caps : List (List Nat)) (cp : CP) (hd
           have := congrArg DV.kern (hs.dv 0)
           simp only [Disp.view] at this
           rw [this]; exact hidle 0
-        have := handleLaunch_false _ k rest hd' 0 (by omega) hk0
-        rw [this] at hb2; cases hb2
+        rcases handleLaunch_false _ k rest hd' 0 (by omega) hk0 with this | this
+        · rw [this] at hb2; cases hb2
+        · -- a rejection is a fault of the tick
+          rcases handleLaunch_fault (handleLaunch (tickDispatchers (List.range cp.disps.length) cp).1).1
+            with e | e <;> rw [e] at hf
+          · rw [this] at hf; cases hf
+          · cases hf
 
 /-- the reachable-state form -/
 theorem no_stuck_fits_run (caps : List (List Nat)) (cfg : Cfg) (nd : Nat) (pool : List CU) (ops : List Op)
@@ -174,7 +179,7 @@ theorem no_stuck_fits_run (caps : List (List Nat)) (cfg : Cfg) (nd : Nat) (pool 
     (fun k hk => (hops k hk).2) (mkCP_KQ _ cfg nd pool)
   have hlen : 0 < (run (mkCP cfg nd pool) ops).disps.length := by
     have := fair_len cfg nd pool ops; omega
-  exact no_stuck_fits_core true caps _ hdc hti hinv hkq hlen hb hf henv
+  exact no_stuck_fits_core true caps _ hdc hti hinv hkq.kd hlen hb hf henv
 
 /-- **liveness under a fair environment, no remaining alternative** (helper form: `AllAnswered`) -/
 theorem fair_run_answers_fits (caps : List (List Nat)) (cfg : Cfg) (nd : Nat) (pool : List CU)
